@@ -280,6 +280,89 @@ def konstEval (c : List Ad) (cons : Cons) (src : List Val) : Res :=
   let d := hasRev c || cons.isRev
   (runLoop c d cons (initSt c) (consInit cons) (walk d src)).ret
 
+/-! ### the literal shape of the emitted code: consumer code INSIDE the innermost loop
+
+`feed`/`consMany` above first compute the items one source item contributes and then run the
+consumer code over them.  The macros emit the consumer code at the innermost position of the loop
+nest, and its `break 'label` leaves the whole nest immediately.  `feedK` is that literal shape;
+`Lemmas/IterDsl.feedK_spec` / `konstEvalK_eq` prove the two formulations equal (closures are pure),
+and the driver executes `konstEvalK`. -/
+
+/-- nested `loop` over an inner iterator with the consumer's accumulator threaded through -/
+def foldItemsK (step : St → CAcc → Val → St × CAcc × Bool) : St → CAcc → List Val → St × CAcc × Bool
+  | st, a, [] => (st, a, false)
+  | st, a, y :: ys =>
+    match step st a y with
+    | (st', a', true) => (st', a', true)
+    | (st', a', false) => foldItemsK step st' a' ys
+
+/-- one source item pushed through adapters AND consumer; `true` = some `break 'label` ran -/
+def feedK (cons : Cons) : List Ad → Bool → St → CAcc → Val → St × CAcc × Bool
+  | [], _, st, a, x => match consStep cons a x with | (a', b) => (st, a', b)
+  | _ :: _, _, [], a, _ => ([], a, true)
+  | .copied :: r, d, c :: st, a, x =>
+      match feedK cons r d st a x with | (st', a', b) => (c :: st', a', b)
+  | .enumerate :: r, d, c :: st, a, x =>
+      match c with
+      | .nat i => match feedK cons r d st a (.pair (.n i) x) with | (st', a', b) => (.nat (i + 1) :: st', a', b)
+      | _ => (c :: st, a, true)
+  | .filter p :: r, d, c :: st, a, x =>
+      if p x then match feedK cons r d st a x with | (st', a', b) => (c :: st', a', b)
+      else (c :: st, a, false)
+  | .filterMap f :: r, d, c :: st, a, x =>
+      match f x with
+      | some y => match feedK cons r d st a y with | (st', a', b) => (c :: st', a', b)
+      | none => (c :: st, a, false)
+  | .flatMap f :: r, d, c :: st, a, x =>
+      match foldItemsK (feedK cons r d) st a (walk d (f x)) with | (st', a', b) => (c :: st', a', b)
+  | .flatten :: r, d, c :: st, a, x =>
+      match foldItemsK (feedK cons r d) st a (walk d (unseq x)) with | (st', a', b) => (c :: st', a', b)
+  | .map f :: r, d, c :: st, a, x =>
+      match feedK cons r d st a (f x) with | (st', a', b) => (c :: st', a', b)
+  | .rev :: r, d, c :: st, a, x =>
+      match feedK cons r (!d) st a x with | (st', a', b) => (c :: st', a', b)
+  | .skip _ :: r, d, c :: st, a, x =>
+      match c with
+      | .nat k =>
+        if k ≠ 0 then (.nat (k - 1) :: st, a, false)
+        else match feedK cons r d st a x with | (st', a', b) => (.nat k :: st', a', b)
+      | _ => (c :: st, a, true)
+  | .skipWhile p :: r, d, c :: st, a, x =>
+      match c with
+      | .flag s =>
+        if s && p x then (.flag true :: st, a, false)
+        else match feedK cons r d st a x with | (st', a', b) => (.flag false :: st', a', b)
+      | _ => (c :: st, a, true)
+  | .take _ :: r, d, c :: st, a, x =>
+      match c with
+      | .nat k =>
+        if k = 0 then (.nat k :: st, a, true)
+        else match feedK cons r d st a x with | (st', a', b) => (.nat (k - 1) :: st', a', b)
+      | _ => (c :: st, a, true)
+  | .takeWhile p :: r, d, c :: st, a, x =>
+      if p x then match feedK cons r d st a x with | (st', a', b) => (c :: st', a', b)
+      else (c :: st, a, true)
+  | .zip _ :: r, d, c :: st, a, x =>
+      match c with
+      | .lst l =>
+        match pop d l with
+        | some (e, l') => match feedK cons r d st a (.pair x e) with | (st', a', b) => (.lst l' :: st', a', b)
+        | none => (.lst l :: st, a, true)
+      | _ => (c :: st, a, true)
+
+/-- the outer labelled loop, literal shape -/
+def runLoopK (c : List Ad) (d : Bool) (cons : Cons) : St → CAcc → List Val → CAcc
+  | _, a, [] => a
+  | st, a, x :: xs =>
+    match feedK cons c d st a x with
+    | (_, a', true) => a'
+    | (st', a', false) => runLoopK c d cons st' a' xs
+
+/-- value of the macro invocation computed by the literal loop nest -/
+def konstEvalK (c : List Ad) (cons : Cons) (src : List Val) : Res :=
+  let d := hasRev c || cons.isRev
+  (runLoopK c d cons (initSt c) (consInit cons) (walk d src)).ret
+
 /-- `collect_const!` runs the same loop twice (ComputeLength with CAP = 0, then BuildArray with
     CAP = that length) and asserts `length == CAP` before `array_assume_init`; `none` = that assert
     fails -/
